@@ -83,7 +83,7 @@ def worker(ctx):
     from hypothesis import given
     drv = Driver(timeout=120)
     rec = ctx.rec
-    names = cases.SHIPPED_ALL if ctx.thorough() else cases.SHIPPED_QUICK
+    names = list(cases.SHIPPED_ALL if ctx.thorough() else cases.SHIPPED_QUICK) + ['Awami_test.ttf#nosub']      # collision font whose glyphs have octaboxes but no sub-boxes (F17)
     sup = cases.supported_map(drv, names)
     reports = {}
 
